@@ -13,7 +13,7 @@ def build():
     u.ghost_call("request_certificate", quals=("",))
     u.ghost_call("call_post_operation_hooks", method=True)
     u.module("main_event_loop", "use crate::*;\nuse crate::shims::*;\nuse crate::acme_common::error::Error;\nuse std::time::Duration;")
-    u.verify(M, "renew_certificate", "main_event_loop", props=["C07", "C06"], fns={"renew_certificate": FnSpec(ret="r", ghost=True, sig="""
+    u.verify(M, "renew_certificate", "main_event_loop", props=["C07", "C06", "C09"], fns={"renew_certificate": FnSpec(ret="r", ghost=True, sig="""
     requires -CLOCK_MAX() <= old(w).clock <= CLOCK_MAX(),
     ensures
         // exactly one request and exactly one post-operation hook run per attempt
@@ -25,6 +25,8 @@ def build():
         !final(w).last_request_ok ==> final(w).last_postop_status == prefix_spec(final(w).last_request_err, "unable to renew the certificate"@), //@C07.failure_carries_error_text
         // after a failure at least a second passes before this task is handed back (and re-queued)
         !final(w).last_request_ok ==> final(w).slept_since_request >= 1_000_000_000, //@C07.pause_after_failure
+        // the task hands back the very handles it was given: the account and the endpoint (with its rate limiter) stay the shared ones
+        r.1 == account_s && r.2 == endpoint_s, //@C09.the_task_hands_back_the_shared_endpoint
 """, loops={1: """
     invariant w.requests == old(w).requests, w.postops == old(w).postops, w.clock <= CLOCK_MAX(),
         backoff@ == seq![60u64, 600u64, 6000u64, 86400u64],
